@@ -40,6 +40,7 @@ def run(tier, v):
     RESP = b"HTTP/1.1 200 OK\r\nServer: long-srv\r\nContent-Type: application/octet-stream\r\n\r\n"
     H2 = b"PRI * HTTP/2.0\r\n\r\nSM\r\n\r\n" + bytes([0, 0, 0, 4, 0, 0, 0, 0, 0])
     H2H = H2 + bytes([0, 0, 3, 1, 5, 0, 0, 0, 1, 0x82, 0x86, 0x84])
+    FLIGHT = bytes([0x16, 3, 3, 0, 42, 2, 0, 0, 38, 3, 3]) + bytes(range(32)) + bytes([0, 0x13, 0x01, 0]) + bytes([0x14, 3, 3, 0, 1, 1]) + bytes([0x17, 3, 3, 5, 0]) + bytes(100)
     c = lambda **kw: dict(dir="c", **kw)
     sv = lambda **kw: dict(dir="s", **kw)
     scripts = {
@@ -59,6 +60,11 @@ def run(tier, v):
         "tls_partial_hello_then_tiny_segments": (443, [c(hex=hello[:40].hex()), c(kind="random", n=45 * nseg, len=3)]),
         "tls_header_only_then_one_byte_segments": (443, [c(hex=bytes([0x16, 3, 3, 0xff, 0xff]).hex()), c(kind="zeros", n=45 * nseg, len=1)]),
         "tls_appdata_from_server_after_hello": (443, [c(hex=hello.hex()), sv(kind="tls_appdata", n=nseg, len=1400)]),
+        # a complete handshake record that is no ClientHello with MORE bytes behind it in the same segment (a server's first flight:
+        # ServerHello, ChangeCipherSpec, the start of an encrypted record), then the connection goes on -- from either end
+        "tls_server_flight_coalesced_then_appdata": (443, [sv(hex=FLIGHT.hex()), sv(kind="tls_appdata", n=nseg, len=1400)]),
+        "tls_nonhello_record_and_tail_then_appdata_client": (443, [c(hex=FLIGHT.hex()), c(kind="tls_appdata", n=nseg, len=1400)]),
+        "tls_nonhello_record_and_one_byte_then_random": (443, [c(hex=(FLIGHT[:47] + b"\x00").hex()), c(kind="random", n=nseg, len=1400)]),
         "http_exchange_then_response_body": (80, [c(hex=REQ.hex()), sv(hex=RESP.hex()), sv(kind="bytes_b", n=nseg, len=1400)]),
         "http_exchange_then_binary_both_ways": (80, [c(hex=REQ.hex()), sv(hex=RESP.hex())] + [x for _ in range(min(nseg, 3000) // 2) for x in (c(kind="random", n=1, len=1400), sv(kind="random", n=1, len=1400))]),
         "http_request_segment_retransmitted": (80, [c(hex=REQ[:30].hex(), n=nseg, retx=True)]),
